@@ -28,6 +28,7 @@ From CL Require Import Base.Sx Base.Res Base.Str Model.AddRemove Model.Channels
                        Proofs.PropsView Proofs.PropsWrap Proofs.SerializeIdem.
 From CL Require Proofs.C02BlocksDtd Proofs.DtdShape Proofs.DtdReparse Proofs.DtdView.
 From CL Require Proofs.C02BlocksRx Proofs.C02BlocksIni Proofs.IniShape Proofs.IniReparse Proofs.IniView.
+From CL Require Proofs.C02BlocksInc Proofs.IncShape Proofs.IncReparse Proofs.MergeHeadInstr.
 From Coq Require Import Lia.
 Import ListNotations.
 Local Open Scope nat_scope.
@@ -595,4 +596,196 @@ Proof.
       (split; [split; nodup_tac|]); vm_compute; intuition (try discriminate; try lia). }
   split; [vm_compute; reflexivity|]. split; [reflexivity|]. split; [vm_compute; reflexivity|].
   vm_compute. discriminate.
+Qed.
+
+(* ---- the re-parse clause for .inc -----------------------------------------------------------------
+   Reference and old localization are legal .inc block lists (Proofs/C02BlocksInc.v) with
+   [IncReparse.nversion_ok m] (2 <= m; see Properties/C15.v).  Premises that exclude the two
+   listed findings, both needed:
+   - [Forall nvalued rbs]: every reference entity has a value.  "#define KEY" alone has the value
+     span (-1, -1): the model's (= the implementation's) Entity.wrap splices at the end of the
+     file (inc-wrap-valueless-define, C16_wrap_valueless_refuted); with [props_wrap] the new
+     value is glued to the key (C16_reparse_inc_valueless_refuted).
+   - the reference starts with an instruction of key kf and the old localization is empty or
+     starts with an instruction of the same key: otherwise pruning the placeholder of a first
+     entity leaves its newline at offset 0, which is Junk (inc-serialize-blank-line-junk:
+     C16_reparse_inc_head_refuted for the reference, C16_reparse_inc_old_head_refuted for an
+     obsolete first entity of the old file — also with "#filter emptyLines" in the reference).
+   - filter regions as in C15: no empty lines at all, or kf = "filter emptyLines" and no
+     "#unfilter emptyLines" in either file.
+   New values are one line.  Then the bytes re-parse (walk_defines) without junk; the entities
+   are, with key and value, those of the output entry list: the reference keys with a value in
+   reference order; comments and instructions are those of the output entry list. *)
+Theorem C16_reparse_inc : forall m, 2 <= m -> forall kf rbs obs wrap nd name txt,
+  IncReparse.nversion_ok m rbs -> IncReparse.nversion_ok m obs -> NoDup (map fst nd) ->
+  props_wrap wrap ->
+  (forall k raw, In (k, Some raw) nd -> C02BlocksRx.no_nl raw = true) ->
+  Forall IncReparse.nvalued rbs ->
+  MergeHeadInstr.starts_instr kf (IncShape.ncentries_of rbs) ->
+  (IncShape.ncentries_of obs = [] \/ MergeHeadInstr.starts_instr kf (IncShape.ncentries_of obs)) ->
+  ((IncReparse.single_ws (IncShape.ncentries_of rbs) /\ IncReparse.single_ws (IncShape.ncentries_of obs)) \/
+   (kf = Parse.s_filter /\ IncReparse.no_unfilter (IncShape.ncentries_of rbs) /\
+    IncReparse.no_unfilter (IncShape.ncentries_of obs))) ->
+  let R := number 0 (IncShape.ncentries_of rbs) in
+  let L := number (length (IncShape.ncentries_of rbs)) (IncShape.ncentries_of obs) in
+  serialize wrap name R L nd = Ok txt ->
+  exists out es,
+    serialize_entries wrap R L nd = Ok out /\ txt = concat (map c_text out) /\
+    walk_defines txt = Ok es /\
+    map (fun e => let r := C02BlocksInc.entity_nrecord txt e in
+                  (fst (fst r), match snd (fst r) with Some v => v | None => [] end))
+        (filter (C02BlocksInc.is_kind KEntity) es) = krecs out /\
+    map fst (krecs out) = filter (has_value L nd) (refkeys R) /\
+    map (fun e => C02BlocksInc.span_text txt (e_span e)) (filter (C02BlocksInc.is_kind KComment) es) =
+      ccoms out /\
+    map (fun e => C02BlocksInc.opt_text txt (e_val e)) (filter (C02BlocksInc.is_kind KInstruction) es) =
+      IncShape.cinstrs out /\
+    filter (C02BlocksInc.is_kind KJunk) es = [].
+Proof. exact IncReparse.serialize_reparse_inc. Qed.
+
+(* reference  #filter emptyLines / <blank> / #define a A / # c / <blank> / #define b B
+   old        #filter emptyLines / <blank> / #define a la          new {b: "nb"} *)
+Definition ne (k v : list nat) : C02BlocksInc.nblock :=
+  C02BlocksInc.NEntity [] (A [32]) (A k) (Some (32%N, A v)) true.
+Definition n_ref : list C02BlocksInc.nblock :=
+  [C02BlocksInc.nx_filter; C02BlocksInc.NBlank 1; ne [97] [65];
+   C02BlocksInc.NComment [(35%N, A [32; 99])]; C02BlocksInc.NBlank 1; ne [98] [66]].
+Definition n_old : list C02BlocksInc.nblock :=
+  [C02BlocksInc.nx_filter; C02BlocksInc.NBlank 1; ne [97] [108; 97]].
+
+Ltac nversion_ok_tac :=
+  split; [repeat constructor|]; split; [split; nodup_tac|];
+  split; [vm_compute; intuition (try discriminate; try lia)|vm_compute; reflexivity].
+Ltac starts_instr_tac := eexists; eexists; split; [reflexivity|split; reflexivity].
+Ltac no_unfilter_tac :=
+  intros e He K; vm_compute in He;
+  repeat (destruct He as [<-|He]; [first [discriminate K | vm_compute; discriminate]|]); contradiction.
+Ltac single_ws_tac :=
+  intros e He K; vm_compute in He;
+  repeat (destruct He as [<-|He]; [first [discriminate K | vm_compute; reflexivity]|]); contradiction.
+
+Example C16_example_inc_hyps :
+  IncReparse.nversion_ok 2 n_ref /\ IncReparse.nversion_ok 2 n_old /\ Forall IncReparse.nvalued n_ref /\
+  MergeHeadInstr.starts_instr Parse.s_filter (IncShape.ncentries_of n_ref) /\
+  MergeHeadInstr.starts_instr Parse.s_filter (IncShape.ncentries_of n_old) /\
+  IncReparse.no_unfilter (IncShape.ncentries_of n_ref) /\ IncReparse.no_unfilter (IncShape.ncentries_of n_old).
+Proof.
+  split; [nversion_ok_tac|]. split; [nversion_ok_tac|]. split; [repeat constructor|].
+  split; [starts_instr_tac|]. split; [starts_instr_tac|]. split; no_unfilter_tac.
+Qed.
+
+(* the bytes  #filter emptyLines / <blank> / #define a la / # c / <blank> / #define b nb *)
+Example C16_example_reparse_inc :
+  exists txt es,
+    serialize wrap_props (s [100;46;105;110;99])
+              (number 0 (IncShape.ncentries_of n_ref))
+              (number (length (IncShape.ncentries_of n_ref)) (IncShape.ncentries_of n_old))
+              [(A [98], Some (A [110; 98]))] = Ok txt /\
+    walk_defines txt = Ok es /\
+    map (fun e => let r := C02BlocksInc.entity_nrecord txt e in
+                  (fst (fst r), match snd (fst r) with Some v => v | None => [] end))
+        (filter (C02BlocksInc.is_kind KEntity) es) = [(A [97], A [108; 97]); (A [98], A [110; 98])] /\
+    map (fun e => C02BlocksInc.span_text txt (e_span e)) (filter (C02BlocksInc.is_kind KComment) es) =
+      [A [35; 32; 99]] /\
+    filter (C02BlocksInc.is_kind KJunk) es = [].
+Proof.
+  eexists. eexists. split; [vm_compute; reflexivity|]. split; [vm_compute; reflexivity|].
+  split; [vm_compute; reflexivity|]. split; vm_compute; reflexivity.
+Qed.
+
+(* the reference must start with an instruction (listed finding inc-serialize-blank-line-junk):
+   reference  #define A a / #define B b  (no empty lines, every entity valued), no old file,
+   new {B: "x"}: A's placeholder is pruned, its newline stays in front — Junk at offset 0 *)
+Definition nh_ref : list C02BlocksInc.nblock := [ne [65] [97]; ne [66] [98]].
+Theorem C16_reparse_inc_head_refuted :
+  exists name txt es,
+    IncReparse.nversion_ok 2 nh_ref /\ IncReparse.nversion_ok 2 [] /\ Forall IncReparse.nvalued nh_ref /\
+    IncReparse.single_ws (IncShape.ncentries_of nh_ref) /\
+    serialize wrap_props name (number 0 (IncShape.ncentries_of nh_ref)) [] [(A [66], Some (A [120]))] = Ok txt /\
+    txt = A [10; 35;100;101;102;105;110;101; 32; 66; 32; 120; 10] /\
+    walk_defines txt = Ok es /\ filter (C02BlocksInc.is_kind KJunk) es <> [].
+Proof.
+  exists (s [100;46;105;110;99]). eexists. eexists.
+  split; [nversion_ok_tac|]. split; [nversion_ok_tac|]. split; [repeat constructor|].
+  split; [single_ws_tac|]. split; [vm_compute; reflexivity|]. split; [reflexivity|].
+  split; [vm_compute; reflexivity|]. vm_compute. discriminate.
+Qed.
+
+(* ... and so must the old localization, also when the reference starts with "#filter emptyLines":
+   reference  #filter emptyLines / #define A a     old  #define X x / #filter emptyLines / #define A la
+   no new data: the obsolete X is pruned, its newline stays in front of everything *)
+Definition no_ref : list C02BlocksInc.nblock := [C02BlocksInc.nx_filter; ne [65] [97]].
+Definition no_old : list C02BlocksInc.nblock := [ne [88] [120]; C02BlocksInc.nx_filter; ne [65] [108; 97]].
+Theorem C16_reparse_inc_old_head_refuted :
+  exists name txt es,
+    IncReparse.nversion_ok 2 no_ref /\ IncReparse.nversion_ok 2 no_old /\ Forall IncReparse.nvalued no_ref /\
+    MergeHeadInstr.starts_instr Parse.s_filter (IncShape.ncentries_of no_ref) /\
+    IncReparse.single_ws (IncShape.ncentries_of no_ref) /\ IncReparse.single_ws (IncShape.ncentries_of no_old) /\
+    serialize wrap_props name (number 0 (IncShape.ncentries_of no_ref))
+              (number (length (IncShape.ncentries_of no_ref)) (IncShape.ncentries_of no_old)) [] = Ok txt /\
+    walk_defines txt = Ok es /\ filter (C02BlocksInc.is_kind KJunk) es <> [].
+Proof.
+  exists (s [100;46;105;110;99]). eexists. eexists.
+  split; [nversion_ok_tac|]. split; [nversion_ok_tac|]. split; [repeat constructor|].
+  split; [starts_instr_tac|]. split; [single_ws_tac|]. split; [single_ws_tac|].
+  split; [vm_compute; reflexivity|]. split; [vm_compute; reflexivity|]. vm_compute. discriminate.
+Qed.
+
+(* every reference entity must have a value: with the tail-replacing wrap the new value of
+   "#define foo" is glued to the key — the bytes re-parse to the key "foox" without a value,
+   not to the entity (foo, x) of the output entry list *)
+Definition nv_ref : list C02BlocksInc.nblock :=
+  [C02BlocksInc.nx_filter; C02BlocksInc.NEntity [] (A [32]) (A [102; 111; 111]) None true].
+Theorem C16_reparse_inc_valueless_refuted :
+  exists name txt out es,
+    IncReparse.nversion_ok 2 nv_ref /\
+    MergeHeadInstr.starts_instr Parse.s_filter (IncShape.ncentries_of nv_ref) /\
+    serialize wrap_props name (number 0 (IncShape.ncentries_of nv_ref)) [] [(A [102; 111; 111], Some (A [120]))] = Ok txt /\
+    serialize_entries wrap_props (number 0 (IncShape.ncentries_of nv_ref)) [] [(A [102; 111; 111], Some (A [120]))] = Ok out /\
+    krecs out = [(A [102; 111; 111], A [120])] /\
+    walk_defines txt = Ok es /\
+    map (fun e => let r := C02BlocksInc.entity_nrecord txt e in
+                  (fst (fst r), match snd (fst r) with Some v => v | None => [] end))
+        (filter (C02BlocksInc.is_kind KEntity) es) = [(A [102; 111; 111; 120], [])].
+Proof.
+  exists (s [100;46;105;110;99]). eexists. eexists. eexists.
+  split; [nversion_ok_tac|]. split; [starts_instr_tac|].
+  split; [vm_compute; reflexivity|]. split; [vm_compute; reflexivity|]. split; [vm_compute; reflexivity|].
+  split; vm_compute; reflexivity.
+Qed.
+
+(* listed finding serialize-ws-fold-after-junk-joins-lines, at entry level: the old Fluent file
+   one = Eins / # c / <3 blanks>junk / four = Vier  is walked as ... Comment, Whitespace "\n",
+   Whitespace "   ", Junk, Whitespace "\n" ...; serialize drops the Junk entry, the two
+   whitespace entries meet and prune keeps the longer "   ": with new_data {two: "two = Zwei"}
+   the bytes are  one = Eins / # c   two = Zwei / four = Vier  — comment and message on one
+   line.  The entity-level theorems hold of this run (entities one, two, four). *)
+Definition fj_contents := s [111;110;101;32;61;32;79;110;101;10; 116;119;111;32;61;32;84;119;111;10;
+                             102;111;117;114;32;61;32;70;111;117;114;10].
+Definition fj_ref :=
+  [mkc CEntity (s [111;110;101]) (s [111;110;101;32;61;32;79;110;101]) (s [111;110;101;32;61;32;79;110;101]) 1;
+   mkc CWhite [] (s [10]) [] 2;
+   mkc CEntity (s [116;119;111]) (s [116;119;111;32;61;32;84;119;111]) (s [116;119;111;32;61;32;84;119;111]) 3;
+   mkc CWhite [] (s [10]) [] 4;
+   mkc CEntity (s [102;111;117;114]) (s [102;111;117;114;32;61;32;70;111;117;114]) (s [102;111;117;114;32;61;32;70;111;117;114]) 5;
+   mkc CWhite [] (s [10]) [] 6].
+Definition fj_wraps : list (nat * wrapinfo) := [(1, WFluent []); (3, WFluent []); (5, WFluent [])].
+Definition fj_old :=
+  [mkc CEntity (s [111;110;101]) (s [111;110;101;32;61;32;69;105;110;115]) (s [111;110;101;32;61;32;69;105;110;115]) 7;
+   mkc CWhite [] (s [10]) [] 8;
+   mkc CComment (s [99]) (s [35;32;99]) [] 9;
+   mkc CWhite [] (s [10]) [] 10; mkc CWhite [] (s [32;32;32]) [] 11;
+   mkc CJunk (s [95;106]) (s [106;117;110;107]) [] 12; mkc CWhite [] (s [10]) [] 13;
+   mkc CEntity (s [102;111;117;114]) (s [102;111;117;114;32;61;32;86;105;101;114]) (s [102;111;117;114;32;61;32;86;105;101;114]) 14;
+   mkc CWhite [] (s [10]) [] 15].
+Theorem C16_ws_fold_after_junk_refuted :
+  exists out,
+    serialize_entries (wrap_by_id fj_contents fj_wraps) fj_ref fj_old
+      [(s [116;119;111], Some (s [116;119;111;32;61;32;90;119;101;105]))] = Ok out /\
+    map c_key (filter is_cent out) = [s [111;110;101]; s [116;119;111]; s [102;111;117;114]] /\
+    concat (map c_text out) =
+      s [111;110;101;32;61;32;69;105;110;115;10; 35;32;99; 32;32;32; 116;119;111;32;61;32;90;119;101;105;10;
+         102;111;117;114;32;61;32;86;105;101;114;10].
+Proof.
+  eexists. split; [vm_compute; reflexivity|]. split; vm_compute; reflexivity.
 Qed.
